@@ -169,6 +169,42 @@ func libraryCloses(fns []*ssa.Function, isCloser func(*ssa.Function) bool, isBan
 				}
 				if !lc.bad {
 					lc.why = "closes the holder's current bank, which has not been handed out"
+					// ... and the holder must not go on holding it: a closed bank is in the pool, the next reader to
+					// ask gets it. A holder that outlives this function (a receiver, a parameter) has to be given
+					// another bank, or none, on every way out.
+					if fa, isFA := ld.X.(*ssa.FieldAddr); isFA {
+						if _, isParam := fa.X.(*ssa.Parameter); isParam {
+							ap := accessPath(fa)
+							var leak *ssa.Return
+							visited := map[*ssa.BasicBlock]bool{}
+							var walk func(bb *ssa.BasicBlock, from int)
+							walk = func(bb *ssa.BasicBlock, from int) {
+								if leak != nil {
+									return
+								}
+								for _, x := range bb.Instrs[from:] {
+									if st, isSt := x.(*ssa.Store); isSt && ap != "" && accessPath(st.Addr) == ap {
+										return
+									}
+									if r, isR := x.(*ssa.Return); isR {
+										leak = r
+										return
+									}
+								}
+								for _, sc := range bb.Succs {
+									if !visited[sc] {
+										visited[sc] = true
+										walk(sc, 0)
+									}
+								}
+							}
+							walk(b, idx+1)
+							if leak != nil {
+								lc.bad = true
+								lc.why = "the bank closed here (and so returned to the pool) is still held by " + ap + " when the function returns: the holder goes on decoding into a bank the next caller of the pool is given too"
+							}
+						}
+					}
 				}
 				out = append(out, lc)
 			}
@@ -240,7 +276,8 @@ type Buf struct{ rb *Bank }
 func (r *Buf) Extract() *Bank { b := r.rb; r.rb = &Bank{}; return b }
 func bad(r *Buf, cb func(*Bank)) { defer r.rb.Close(); for i := 0; i < 3; i++ { cb(r.Extract()) } }
 func good(r *Buf, cb func(*Bank)) { defer func() { r.rb.Close() }(); for i := 0; i < 3; i++ { cb(r.Extract()) } }
-func good2(r *Buf, cb func(*Bank)) { for i := 0; i < 3; i++ { cb(r.Extract()) }; r.rb.Close() }
+func good2(r *Buf, cb func(*Bank)) { for i := 0; i < 3; i++ { cb(r.Extract()) }; r.rb.Close(); r.rb = nil }
+func bad2(r *Buf) { r.rb.Close() }
 `)
 	if fx == nil {
 		c.Unk("fixture/AL-OWNER", "-", "fixture package did not build")
@@ -269,8 +306,8 @@ func good2(r *Buf, cb func(*Bank)) { for i := 0; i < 3; i++ { cb(r.Extract()) };
 		}
 		hits[lc.in.Parent().Name()] = v
 	}
-	o := c.ob(Discharged, "fixture/AL-OWNER", "-", fmt.Sprintf("positive fixture: %v (expected bad only in bad)", hits), false)
-	if !(len(hits) == 3 && hits["bad"] == "bad" && hits["good$1"] == "ok" && hits["good2"] == "ok") {
+	o := c.ob(Discharged, "fixture/AL-OWNER", "-", fmt.Sprintf("positive fixture: %v (expected bad in bad and bad2 only)", hits), false)
+	if !(len(hits) == 4 && hits["bad"] == "bad" && hits["bad2"] == "bad" && hits["good$1"] == "ok" && hits["good2"] == "ok") {
 		o.Verdict, o.VerdictS = Undecided, "undecided"
 	}
 }
